@@ -170,7 +170,7 @@ pub fn run(sc: &StreamSc) -> Obs {
         }
         Src::Bytes(b) => (&empty[..], String::new(), &b[..]),
     };
-    let mut stream = SimStream::with_hint(evs, if sc.entry.iterator() { sc.hint } else { 0 });
+    let mut stream = SimStream::with_hint(evs, if sc.entry.iterator() { sc.hint } else { 0 }).reentering_at(if sc.entry.iterator() { sc.reenter_at as usize } else { 0 });
     let res = catch_unwind(AssertUnwindSafe(|| match sc.target {
         Target::Value => go::<Value>(sc, &mut stream, &text, bytes),
         Target::String => go::<json_syntax::String>(sc, &mut stream, &text, bytes),
